@@ -8,10 +8,18 @@ compress/zlib satisfy those laws is standard-library behaviour and enters as hyp
 `Toy.laws` shows the hypotheses are satisfiable, and the harness validates each law on every value
 and body it uses.  This property is therefore PARTIAL by nature: the theorems are about the glue.
 
-Two deviations of the code from the property as written were found:
-  F62  (OPEN) a Content-Type containing two registered keys selects a reader by Go map iteration
-       order: full statement in a comment, `_partial` theorems whose extra hypothesis is the class
-       `Entity.f62`, and the `decide`d witness `C16_F62_witness`;
+Two deviations of the code from the property as written were found; both are repaired:
+  F62  (REPAIRED by 8b400b4) a Content-Type containing two registered keys (`application/xml;
+       x="application/json"`) used to select a reader by Go map iteration order.  The reverse lookup
+       of `accessorAt` is now a function of the value: among the registered keys that occur in it
+       the one whose first occurrence is earliest wins, the longer of two that start at the same
+       position (`Str.firstLongest`).  The media type of a Content-Type stands before its
+       parameters, so the registered key that IS the media type always wins
+       (`C16_select_media`).  Nothing below assumes the class `Entity.f62` any more:
+       `C16_selected_round` and `C16_spec` are the full statements (they were `…_partial` with the
+       hypothesis `f62 = false`), `C16_lookup_function` says the lookup has one answer on
+       every registry and value (the former class included), `C16_reverse_lookup_spec` which one,
+       `C16_F62_fixed` is the former witness as a regression (`decide`d);
   F61  (REPAIRED by 75d0593) a gzip/deflate body whose stream breaks AFTER a complete document was
        delivered (bad CRC/Adler checksum, cut trailer, garbage after the member) used to be read
        without error — possibly to a wrong value — because `ReadEntity` never read the stream to
@@ -20,8 +28,8 @@ Two deviations of the code from the property as written were found:
        any more: `C16_broken_coding` is the full statement, `C16_value_from_clean_stream` is its
        converse (a value is only ever returned from a stream that ended cleanly),
        `C16_former_F61_class` says what the former class yields now, `C16_F61_fixed` is the former
-       witness as a regression (`decide`d), and the predicate theorem `C16_spec_partial` carries
-       the F62 hypothesis only.  The laws `json_dirty` / `xml_dirty` that the partial theorem needed
+       witness as a regression (`decide`d), and the predicate theorem `C16_spec` carries no class
+       hypothesis at all.  The laws `json_dirty` / `xml_dirty` that the partial theorem needed
        are gone from `CodecLaws`.
 -/
 import Restful.Lemmas.Entity
@@ -74,8 +82,7 @@ example :
 /-! ## accessor selection -/
 
 /-- A Content-Type that is a registered key `m` followed by anything (`; charset=utf-8`, blanks …),
-    in which no OTHER registered key occurs, selects exactly `m`'s reader: the set of readers that
-    Go's map iteration can produce is the singleton. -/
+    in which no OTHER registered key occurs, selects exactly `m`'s reader. -/
 theorem C16_select (reg : List (Str × Kind)) (hnd : (reg.map (·.1)).Nodup) (m params ct : Str) (k : Kind)
     (hm : (m, k) ∈ reg) (hct : ct = m ++ params)
     (hu : ∀ e ∈ reg, containsSub e.1 ct = true → e.1 = m) :
@@ -101,35 +108,81 @@ example : accessorsFor Cfg.asIs "APPLICATION/JSON".toList = [] ∧              
     accessorsFor (Cfg.asIs "application/json; charset=utf-8".toList) [] = [.json] := by  -- the default itself goes through the substring search
   decide
 
-/-
-Full statement (what the property wants; FALSE for the code as it is):
+/-- The registered key that is the MEDIA TYPE of the Content-Type — the value starts with it, and
+    what follows starts with `;` or a blank — selects its reader, whatever other registered keys
+    occur further on in the value (in a parameter, say): it occurs at position 0, and no key that
+    also starts there is longer (it would contain the `;` or the blank, which no key of a
+    well-formed registry does).  Before 8b400b4 this held only when no other key occurred (F62). -/
+theorem C16_select_media (cfg : Cfg) (hwf : cfg.wf = true) (ct : Str) (k : Kind)
+    (hm : mediaSelects cfg.registry ct k = true) : accessorAt cfg.registry ct = [k] :=
+  accessorAt_of_mediaSelects hwf hm
 
-  theorem C16_selected_round (L : CodecLaws Value) (cfg : Cfg) (hwf : cfg.wf = true) (hu : cfg.useNumber = true)
-      (pool : Pool) (k : Kind) (pretty : Bool) (v : Value) (ct : Str) (c : Coding)
-      (hsel : selected cfg ct k = true) :                     -- ct = registered key of k's writer (+ parameters), or absent with that default
-      (readEntity L.toCodec cfg pool (requestOf L.toCodec k pretty v ct c)).results = [.ok v]
+/-- The lookup is a FUNCTION of the value on every registry that is a map (distinct keys; no
+    other assumption on the keys or on the value): never two possible readers, and `ReadEntity`
+    has exactly one result — the order in which Go iterates over the map cannot show. -/
+theorem C16_lookup_function (C : Codec Value) (cfg : Cfg) (hnd : (cfg.registry.map (·.1)).Nodup) (pool : Pool) (req : RequestIn) :
+    (accessorAt cfg.registry req.contentType).length ≤ 1 ∧ (accessorsFor cfg req.contentType).length ≤ 1 ∧
+      (readEntity C cfg pool req).results.length = 1 :=
+  ⟨accessorAt_length_le_one hnd _, accessorsFor_length_le_one hnd _, readEntity_results_length C hnd pool req⟩
 
-With the built-in keys alone a Content-Type can contain both (`application/xml; x="application/json"`):
-neither equals the value, both are substrings, and `accessorAt` returns whichever the map iteration
-meets first.  The proof forces `f62 cfg ct = false`.
--/
+/-- …and WHICH key answers when there is no exact one: it occurs in the value, no registered key
+    occurs earlier, none that starts at the same position is longer; as soon as some registered key
+    occurs there is such a key, and there is only one (the specification of `Str.firstLongest`,
+    i.e. of the loop entity_accessors.go:78-90, by `strings.Index` alone). -/
+theorem C16_reverse_lookup_spec (keys : List Str) (v : Str) :
+    (∀ k, firstLongest keys v k = true ↔
+      ∃ i, indexSub k v = some i ∧ ∀ k' ∈ keys, ∀ j, indexSub k' v = some j → i < j ∨ (i = j ∧ k'.length ≤ k.length)) ∧
+    ((∃ k ∈ keys, containsSub k v = true) → ∃ k ∈ keys, firstLongest keys v k = true) ∧
+    (∀ k ∈ keys, ∀ k' ∈ keys, firstLongest keys v k = true → firstLongest keys v k' = true → k = k') :=
+  ⟨fun _ => firstLongest_iff, firstLongest_exists, fun _ hk _ hk' h h' => firstLongest_unique hk hk' h h'⟩
 
-/-- F62, reachable with nothing but the built-in JSON and XML keys: a faithful XML body under a
-    Content-Type whose media type is `application/xml` can be handed to the JSON reader (and fail) -/
-theorem C16_F62_witness :
-    let ct := "application/xml; x=\"application/json\"".toList
-    selected Cfg.asIs ct .xml = true ∧ accessorAt builtinRegistry ct = [.json, .xml] ∧ Entity.f62 Cfg.asIs ct = true ∧
-      (readEntity Toy.codec Cfg.asIs (Pool.fresh Toy.codec .syncPool) (requestOf Toy.codec .xml false .small ct .identity)).results
-        = [.err .badSyntax, .ok .small] := by
+/-- non-vacuity of `C16_select_media` / `C16_lookup_function` / `C16_reverse_lookup_spec`: the two
+    Content-Types of the former class F62 on the built-in registry, a key inside a longer key that
+    starts at the same position (the longer wins), a key that occurs earlier than the media type
+    (it wins: the value does not START with a registered key) -/
+example :
+    let reg3 : List (Str × Kind) := [(MIME_JSON, .json), (MIME_XML, .xml), ("application/x".toList, .json)]
+    Cfg.asIs.wf = true ∧ mediaSelects builtinRegistry "application/xml; x=\"application/json\"".toList .xml = true ∧
+      accessorAt builtinRegistry "application/xml; x=\"application/json\"".toList = [.xml] ∧
+      accessorAt builtinRegistry "application/json; x=\"application/xml\"".toList = [.json] ∧
+      (reg3.map (·.1)).Nodup ∧ accessorAt reg3 "application/xml;charset=utf-8".toList = [.xml] ∧
+      accessorAt reg3.reverse "application/xml;charset=utf-8".toList = [.xml] ∧
+      accessorAt reg3 "application/xhtml+xml".toList = [.json] ∧
+      accessorAt builtinRegistry "x-application/json+application/xml".toList = [.json] ∧
+      firstLongest (reg3.map (·.1)) "application/xml;charset=utf-8".toList MIME_XML = true ∧
+      firstLongest (reg3.map (·.1)) "application/xml;charset=utf-8".toList "application/x".toList = false := by
   decide
 
-/-- outside class F62 the reader selected by the Content-Type's media type (or, without a
-    Content-Type, by the default request content type) reads back what its writer wrote -/
-theorem C16_selected_round_partial (L : CodecLaws Value) (cfg : Cfg) (hwf : cfg.wf = true) (hu : cfg.useNumber = true)
+/-- The reader selected by the Content-Type's media type (or, without a Content-Type, by the
+    default request content type) reads back what its writer wrote.  FULL statement (until 8b400b4
+    it held only outside the class `Entity.f62`: finding F62, `C16_selected_round_partial`). -/
+theorem C16_selected_round (L : CodecLaws Value) (cfg : Cfg) (hwf : cfg.wf = true) (hu : cfg.useNumber = true)
     (pool : Pool) (k : Kind) (pretty : Bool) (v : Value) (ct : Str) (c : Coding)
-    (hsel : selected cfg ct k = true) (hF62 : Entity.f62 cfg ct = false) :
+    (hsel : selected cfg ct k = true) :                     -- ct = registered key of k's writer (+ parameters), or absent with that default
     (readEntity L.toCodec cfg pool (requestOf L.toCodec k pretty v ct c)).results = [.ok v] :=
-  C16_round L cfg hu pool k pretty v ct c (accessorsFor_of_selected hwf hsel hF62)
+  C16_round L cfg hu pool k pretty v ct c (accessorsFor_of_selected hwf hsel)
+
+/-- The former witness of F62 as a regression, on the model, with nothing but the built-in JSON
+    and XML keys: a faithful XML body under `application/xml; x="application/json"` — both keys
+    occur, the lookup before 8b400b4 could answer with either reader (`accessorAtAnyOrder`), the
+    request is in the former class — is read by the XML reader, the one result is the value
+    written (before: `[.err .badSyntax, .ok .small]`, whichever the map iteration met first); the
+    mirrored Content-Type goes to the JSON reader; the predicate of the check holds on what the
+    model does with both, and still rejects what the unrepaired code could answer. -/
+theorem C16_F62_fixed :
+    let ct := "application/xml; x=\"application/json\"".toList
+    let ct' := "application/json; x=\"application/xml\"".toList
+    let obs := observe Toy.codec Cfg.asIs (fun v => [v.ch]) .syncPool (Pool.fresh Toy.codec .syncPool)
+      [{ req := requestOf Toy.codec .xml false .small ct .identity, kind := .xml, v := .small, faithful := true },
+       { req := requestOf Toy.codec .json false .small ct' .gzip, kind := .json, v := .small, faithful := true }]
+    selected Cfg.asIs ct .xml = true ∧ Entity.f62 Cfg.asIs ct = true ∧ accessorAtAnyOrder builtinRegistry ct = [.json, .xml] ∧
+      accessorAt builtinRegistry ct = [.xml] ∧
+      (readEntity Toy.codec Cfg.asIs (Pool.fresh Toy.codec .syncPool) (requestOf Toy.codec .xml false .small ct .identity)).results
+        = [.ok .small] ∧
+      selected Cfg.asIs ct' .json = true ∧ Entity.f62 Cfg.asIs ct' = true ∧ accessorAt builtinRegistry ct' = [.json] ∧
+      obs.map (·.real) = [.ok ['s'], .ok ['s']] ∧ Spec.c16Holds Cfg.asIs obs = true ∧
+      Spec.c16Holds Cfg.asIs (obs.map fun o => { o with real := .err, alone := .err }) = false := by
+  decide
 
 /-! ## history independence -/
 
@@ -443,21 +496,20 @@ example :
 /-- `Spec.c16Holds` — the very predicate the driver evaluates on what the real code did — holds on
     every history of the model: any codec satisfying the laws, any well-formed registry, any default,
     any provider and starting pool, any sequence of requests whose `faithful` flags are honest —
-    bodies broken anywhere included (the class of the repaired F61 is no longer excluded) — outside
-    the class of the one open finding, F62. -/
-theorem C16_spec_partial (L : CodecLaws Value) (cfg : Cfg) (hwf : cfg.wf = true) (hu : cfg.useNumber = true)
+    bodies broken anywhere included, Content-Types naming several registered keys included: neither
+    the class of the repaired F61 nor (since 8b400b4) the class of the repaired F62 is excluded any
+    more.  FULL statement (it was `C16_spec_partial`). -/
+theorem C16_spec (L : CodecLaws Value) (cfg : Cfg) (hwf : cfg.wf = true) (hu : cfg.useNumber = true)
     (canon : Value → Str) (prov : Provider) (pool : Pool) (items : List (Item Value))
-    (hsound : ∀ it ∈ items, it.sound L.toCodec)
-    (hF62 : ∀ it ∈ items, Entity.f62 cfg it.req.contentType = false) :
+    (hsound : ∀ it ∈ items, it.sound L.toCodec) :
     Spec.c16Holds cfg (observe L.toCodec cfg canon prov pool items) = true := by
   unfold Spec.c16Holds
   induction items generalizing pool with
   | nil => rfl
   | cons it its ih =>
     simp only [observe, List.all_cons, Bool.and_eq_true]
-    refine ⟨?_, ih _ (fun i hi => hsound i (List.mem_cons_of_mem _ hi)) (fun i hi => hF62 i (List.mem_cons_of_mem _ hi))⟩
+    refine ⟨?_, ih _ (fun i hi => hsound i (List.mem_cons_of_mem _ hi))⟩
     have hs := hsound it (List.mem_cons_self ..)
-    have h62 := hF62 it (List.mem_cons_self ..)
     unfold readHolds
     simp only [Bool.and_eq_true]
     refine ⟨⟨⟨⟨⟨?_, ?_⟩, ?_⟩, ?_⟩, ?_⟩, ?_⟩
@@ -470,7 +522,7 @@ theorem C16_spec_partial (L : CodecLaws Value) (cfg : Cfg) (hwf : cfg.wf = true)
       · by_cases hsel : selected cfg it.req.contentType it.kind = true
         · right
           obtain ⟨pretty, c, hreq⟩ := hs hf
-          have := C16_selected_round_partial L cfg hwf hu pool it.kind pretty it.v it.req.contentType c hsel h62
+          have := C16_selected_round L cfg hwf hu pool it.kind pretty it.v it.req.contentType c hsel
           rw [← hreq] at this
           simp [this, pick, toObs]
         · left; right; simpa using hsel
@@ -507,7 +559,7 @@ theorem C16_spec_partial (L : CodecLaws Value) (cfg : Cfg) (hwf : cfg.wf = true)
                 simp only at hc
                 have hdoc : docFor L.toCodec cfg k s.data = false := by
                   cases k <;> simpa [Facts.doc] using hd
-                have := C16_broken_syntax L cfg pool it.req s k hds hc (accessorsFor_of_selected hwf hsel h62) hdoc
+                have := C16_broken_syntax L cfg pool it.req s k hds hc (accessorsFor_of_selected hwf hsel) hdoc
                 rw [this]
                 rfl
           · exact Or.inl (Or.inl (Or.inr (by simpa using hsel)))
@@ -519,8 +571,9 @@ theorem C16_spec_partial (L : CodecLaws Value) (cfg : Cfg) (hwf : cfg.wf = true)
     · -- ledger
       rcases readEntity_events L.toCodec cfg pool it.req with h | h <;> rw [h] <;> decide
 
-/-- non-vacuity of `C16_spec_partial`: a history on the toy codec with good and broken bodies —
-    among them one of the former class F61 (gzip trailer cut after a complete document) — all
+/-- non-vacuity of `C16_spec`: a history on the toy codec with good and broken bodies — among them
+    one of the former class F61 (gzip trailer cut after a complete document) and one of the former
+    class F62 (a faithful XML body under a Content-Type that also names the JSON key) — all
     hypotheses checked, and the predicate evaluated to true -/
 example :
     let good (k : Kind) (ct : Str) (c : Coding) : Item Toy.V := { req := requestOf Toy.codec k true .big1 ct c, kind := k, v := .big1, faithful := true }
@@ -529,12 +582,12 @@ example :
       good .xml MIME_XML .deflate, good .json [] .identity,
       { req := { contentType := MIME_XML, contentEncoding := [], body := "<s".toList }, kind := .xml, v := .small, faithful := false },
       { req := { contentType := MIME_JSON, contentEncoding := ENCODING_GZIP, body := "G{c}\n".toList }, kind := .json, v := .big1, faithful := false },
-      good .json MIME_JSON .gzip]
+      good .json MIME_JSON .gzip, good .xml "application/xml; x=\"application/json\"".toList .gzip]
     let cfg := Cfg.asIs MIME_JSON
-    cfg.wf = true ∧ (∀ it ∈ items, Entity.f62 cfg it.req.contentType = false) ∧ (items.map fun it => Entity.f61 Toy.codec cfg it.req) =
-        [false, false, false, false, false, true, false] ∧
+    cfg.wf = true ∧ (items.map fun it => Entity.f62 cfg it.req.contentType) = [false, false, false, false, false, false, false, true] ∧
+      (items.map fun it => Entity.f61 Toy.codec cfg it.req) = [false, false, false, false, false, true, false, false] ∧
       (observe Toy.codec cfg (fun v => [v.ch]) (.bounded 1) (Pool.fresh Toy.codec (.bounded 1)) items).map (·.real) =
-        [.ok ['c'], .err, .ok ['c'], .ok ['c'], .err, .err, .ok ['c']] ∧
+        [.ok ['c'], .err, .ok ['c'], .ok ['c'], .err, .err, .ok ['c'], .ok ['c']] ∧
       Spec.c16Holds cfg (observe Toy.codec cfg (fun v => [v.ch]) (.bounded 1) (Pool.fresh Toy.codec (.bounded 1)) items) = true := by
   decide
 
